@@ -167,7 +167,7 @@ class LinearFilter:
                 data = np.nan_to_num(data)
             if not is_fft:
                 data = self._presmooth(data)
-            data *= self.fkernel
+            data = data * self.fkernel
             data = fft.irfftn(data) / self.norms[self.normalization]
             gc.collect()
             if self.scale != 1:
